@@ -108,6 +108,7 @@ static std::vector<SolverCfg> solver_cfgs() {
     add("fgmres", "fgmres", 2, 0, true, {});
     add("idrs1", "idrs", 2, 0, false, {{"s", "1"}});
     add("idrs4", "idrs", 2, 0, true, {{"s", "4"}});
+    add("idrs3.smoothing", "idrs", 2, 0, false, {{"s", "3"}, {"smoothing", "true"}});      // residual smoothing: x_s is returned, ||r_s|| reported
     add("richardson", "richardson", 2, 0, true, {});
     return v;
 }
